@@ -127,6 +127,7 @@ def fromReaders (fixed oc : Bool) (parseCsvRow : Str → Outcome (List Str)) (sp
     (right left cost : List (Option Str)) : Outcome Conn :=
   match builderFromReaders parseCsvRow right left cost with
   | .ok b =>
+    if fixed ∧ b.K = 0 then .err else
     match buildChecked b.trie with
     | .ok scorer =>
       let matrixIdx := matrixIndices b.K split
